@@ -25,3 +25,21 @@ Theorem C15_rerun_complete : forall listing islink followlinks vfolder vfile fue
   = selected listing islink followlinks vfolder vfile fuel root.
 Proof. exact match_exact. Qed.
 Print Assumptions C15_rerun_complete.
+
+(* "nothing further beyond the file being processed": a kill() issued while the folders of a directory are filtered
+   (from on_validate_directory / on_error, or by another thread) ends the run before any file of that directory is
+   started; a kill() issued while a file is handled ends it before the next file is touched; an aborted state passes
+   through every remaining directory unchanged (C15_sticky's lemma walkK_aborted) *)
+Theorem C15_stop_in_folder_phase : forall listing islink followlinks vfolder vfile match_kill skip_kill f base dirs files st,
+  listing base = Some (dirs, files) -> w_abort st = false ->
+  w_abort (snd (dirs_loop vfolder base dirs st)) = true ->
+  w_out (walk listing islink followlinks vfolder vfile match_kill skip_kill (S f) base st) = w_out st /\
+  w_abort (walk listing islink followlinks vfolder vfile match_kill skip_kill (S f) base st) = true.
+Proof. exact kill_in_folder_phase_stops. Qed.
+Print Assumptions C15_stop_in_folder_phase.
+
+Theorem C15_stop_in_file_phase : forall vfile match_kill skip_kill base n fs st,
+  w_abort (file_step vfile match_kill skip_kill base n st) = true ->
+  files_loop vfile match_kill skip_kill base (n :: fs) st = file_step vfile match_kill skip_kill base n st.
+Proof. exact kill_in_file_phase_stops. Qed.
+Print Assumptions C15_stop_in_file_phase.
